@@ -8,7 +8,7 @@ S3  collision bookkeeping: the directory is rescanned (with the generator) in ev
 from analyses import Deps, switch_source
 from core import vkey
 from decision import Walker, diff_tables, fmt_rows
-from model import op_const, op_place, place_key
+from model import op_const, op_place, operands_of_rvalue, place_key
 from rules import dtables
 from rules.dtables import AnchorMissing
 
@@ -222,6 +222,47 @@ def run(ctx, rep):
                           '(the path that sets exact_match does not reach every collision-bitmap update): the same numbered alias '
                           'can be handed out twice')
 
+    # S3.indep: the two numbered forms are tracked independently - whether an entry is examined for one form never depends
+    # on what the examination for the other form found (a name can be of both forms at once: `AB40A3~1` is the long-prefix
+    # form of "AB40A3-x" and, when that name's checksum is 0x40A3, its checksum form too). No collision-bitmap update
+    # site of add_existing is control-dependent on a branch over the result of another update-site call (seed C16-Q: `if
+    # self.check_for_long_prefix_collision(..) { return; }`)
+    if AE is not None and sites:
+        dae = Deps(AE)
+        bad_sw = []
+        for bi in AE.reachable():
+            tt = AE.blocks[bi]['term']
+            if tt['k'] != 'switch':
+                continue
+            src = switch_source(AE, bi)
+            toks = set()
+            if src and src['kind'] == 'binop':
+                toks = dae.of_operand(src['a']) | dae.of_operand(src['b'])
+            elif src and src['kind'] == 'call':
+                toks = {('callsite', b_) for b_ in AE.reachable() if AE.blocks[b_]['term'] is src['term']}
+                for a in src['term']['args']:
+                    toks |= dae.of_operand(a)
+            elif src and src.get('a') is not None:
+                toks = dae.of_operand(src['a'])
+            # (only results of update-site calls: the dependence tokens are field-insensitive on `self`, so a read of
+            # `self.basename_len` would otherwise look like a read of the bitmap once the update is written inline)
+            from_site = {tk[1] for tk in toks if tk[0] == 'callsite' and tk[1] in sites}
+            if not from_site:
+                continue
+            succs = AE.succ(bi)
+            reach = [set(AE.reach_from([x])) for x in succs]
+            for st_ in sites:
+                if st_ in from_site:
+                    continue
+                if any(st_ in r for r in reach) and not all(st_ in r for r in reach):
+                    bad_sw.append((bi, st_))
+        rep.oblige('S3.indep', AE.name, ok=not bad_sw, nontrivial=True,
+                   sample={'fn': AE.name, 'bitmap_update_sites': len(sites)})
+        if bad_sw:
+            rep.violation('S3', vkey('S3', AE.name, 'forms-independent', ''), AE.loc(AE.span),
+                          'whether an existing entry is examined for one numbered form depends on the outcome of the '
+                          'examination for the other (branch bb%d decides over update site bb%d): a name that is of both '
+                          'forms is recorded for one only and its alias can be handed out again' % bad_sw[0])
     # S3.chk: a checksum-form entry only blocks a numeric tail when its checksum digits equal the generator's current
     # checksum (otherwise changing the checksum in next_iteration could never free a tail and the retry loop would
     # not end): the bitmap update is control-dependent on a comparison with self.chksum
@@ -259,6 +300,35 @@ def run(ctx, rep):
                           'a checksum-form short name marks its numeric tail as taken without its checksum digits being '
                           'compared with the generator\'s checksum: once the tails of one checksum are taken no later '
                           'checksum can free them and alias generation cannot finish')
+    # S3.step: the retry loop of check_for_existence ends because next_iteration moves the checksum through the value space by
+    # a fixed map of the checksum itself (wrapping +1): the value stored into `chksum` derives from the old checksum and
+    # constants only. A step that also depends on other generator state (a remembered maximum, a bitmap) is no fixed
+    # permutation of the 16-bit space and can stop moving (seed C16-P: `max(next, highest seen)` rests at 0xFFFF)
+    NI = facts.fns.get('fatfs::dir::ShortNameGenerator::next_iteration')
+    if NI is None:
+        rep.machinery('ANCHOR-MISSING ShortNameGenerator::next_iteration')
+    else:
+        dn = Deps(NI)
+        st = [s_ for bi in NI.reachable() for s_ in NI.blocks[bi]['stmts']
+              if s_['k'] == 'assign' and s_['lhs']['p'] and
+              [e.get('n') for e in s_['lhs']['p'] if 'f' in e][-1:] == ['chksum']]
+        ok = bool(st)
+        foreign = set()
+        for s_ in st:
+            toks = set()
+            for o in operands_of_rvalue(s_['rv']):
+                toks |= dn.of_operand(o)
+            if ('field', 'chksum') not in toks:
+                ok = False
+            foreign |= {t[1] for t in toks if t[0] == 'field' and t[1] not in ('chksum', '0')}
+            foreign |= {'param %d' % t[1] for t in toks if t[0] == 'param' and t[1] != 1}
+        ok = ok and not foreign
+        rep.oblige('S3.step', NI.name, ok=ok, nontrivial=True)
+        if not ok:
+            rep.violation('S3', vkey('S3', NI.name, 'checksum-step', ''), NI.loc(NI.span),
+                          'the next checksum tried is not a function of the current checksum alone (%s): the search over '
+                          'checksum values is no fixed walk of the 16-bit space and can stop moving before a free alias '
+                          'is found' % (', '.join(sorted(foreign)) or 'the old checksum does not flow into the new one'))
     G = facts.fns.get('fatfs::dir::ShortNameGenerator::generate')
     if G is None:
         rep.machinery('ANCHOR-MISSING ShortNameGenerator::generate')
